@@ -87,7 +87,15 @@ def finish(sim, violations, verdicts, nontrivial, runs, out_texts, extra=None):
     }
 
 
-def compare_results(ref, out, demand="L2", oracle="equivalence", use_ties=True, check_stems=True):
+def _contradiction_check_applies(options):
+    if options.get("disable_exact_cardinality"):
+        return False      # exact cardinalities are generalised to '+' on output: distinct facts share a key
+    if options.get("inverse_paths") and options.get("disable_or_statements") is False:
+        return False      # OR statements lose the '^' of inverse constraints: direct and inverse facts share a key
+    return True
+
+
+def compare_results(ref, out, demand="L2", oracle="equivalence", use_ties=True, check_stems=True, options=None):
     """Relational oracle with exception parity.  Returns list of violations."""
     if ref.kind == "exc" or out.kind == "exc":
         if ref.kind != out.kind or ref.exc != out.exc:
@@ -96,7 +104,8 @@ def compare_results(ref, out, demand="L2", oracle="equivalence", use_ties=True, 
     if ref.text == out.text:
         return []
     ties = union_ties(tied_groups(ref.groups), tied_groups(out.groups)) if use_ties else frozenset()
-    d = compare_texts(ref.text, out.text, ties=ties, demand=demand, check_stems=check_stems)
+    d = compare_texts(ref.text, out.text, ties=ties, demand=demand, check_stems=check_stems,
+                      contradiction_check=_contradiction_check_applies(options or {}))
     if d is None:
         return []
     return [violation(oracle, d.klass(), d.detail)]
